@@ -110,20 +110,38 @@ impl Property for C16 {
                 let backend = Backend::Ext { plan: c.plan, vary_plan: c.vary_plan };
                 let (hub, chub) = crate::statics::make_hubs(c.oracle, backend, &None);
                 let mut s = crate::statics::factory_for(backend, &hub, &chub)();
+                let mut raw_mismatch: Option<String> = None;
                 let lits = |v: &[i32]| v.iter().map(|l| Literal::from(*l as isize)).collect::<Vec<Literal>>();
                 for op in &c.ops {
                     match op {
                         SatOp::Add(cl) => s.add_clause(lits(cl)),
                         SatOp::Reserve(n) => s.reserve(*n),
                         SatOp::Solve(a) => {
-                            // verdicts and models are C15's business; here only the instance text counts
-                            let _ = std::panic::catch_unwind(std::panic::AssertUnwindSafe(|| {
-                                let _ = s.solve_under_assumptions(&lits(a));
-                            }));
+                            // the instance text is validated by the child; the reply must be reported as the
+                            // child printed it (truth of the verdict itself is C15's business)
+                            let res = std::panic::catch_unwind(std::panic::AssertUnwindSafe(|| s.solve_under_assumptions(&lits(a))));
+                            let printed = chub.as_ref().and_then(|c| c.borrow().last_verdict.clone());
+                            if raw_mismatch.is_none() {
+                                use crate::simchild::ChildVerdict;
+                                use crustabri::sat::SolvingResult;
+                                raw_mismatch = match (&res, &printed) {
+                                    (Ok(SolvingResult::Unknown), Some(ChildVerdict::Sat(_))) | (Ok(SolvingResult::Unknown), Some(ChildVerdict::Unsat)) => Some("the child printed a complete verdict but the call returned Unknown".to_string()),
+                                    (Ok(SolvingResult::Unsatisfiable), Some(ChildVerdict::Sat(_))) => Some("the child printed a model but the call returned UNSAT".to_string()),
+                                    (Ok(SolvingResult::Satisfiable(_)), Some(ChildVerdict::Unsat)) => Some("the child printed UNSATISFIABLE but the call returned a model".to_string()),
+                                    (Ok(SolvingResult::Satisfiable(m)), Some(ChildVerdict::Sat(vals))) => {
+                                        // a value the call reports must be the value the child printed
+                                        (1..=vals.len()).find(|v| matches!(m.value_of(*v), Some(b) if b != vals[*v - 1])).map(|v| format!("variable {} reported with the opposite value of the one the child printed", v))
+                                    }
+                                    _ => None,
+                                };
+                            }
                         }
                     }
                 }
                 drop(s);
+                if let Some(m) = raw_mismatch {
+                    r.violations.push(Violation::new("C16", "reply-not-reported-faithfully", format!("raw SatSolver history on ExternalSatSolver: {}", m)).at("workload", "raw"));
+                }
                 (hub, chub, "a raw SatSolver history on ExternalSatSolver".to_string())
             }
         };
